@@ -6,9 +6,18 @@
  *   next_job == g_n * sizeof(IMB_JOB), g_n < 256,
  *   g_empty ? earliest_job == -1 : earliest_job == g_e * sizeof(IMB_JOB), g_e < 256, g_e != g_n
  * so the queue holds cnt = (g_n - g_e) mod 256 in 1..255 jobs (or 0), slots g_e .. g_n-1.
- * The stage sequencers (submit_new_job, complete_job and their burst twins) and the parameter
- * check are swapped for over-approximating models (stubs/c05_models.c): any slot's status may
- * progress, the job handed back is in flight and has status >= COMPLETED.
+ *
+ * Slots: the single-job operations may touch two ring slots only, the tail slot g_n (the job
+ * being submitted / offered) and the head slot g_e (the oldest job).  JOBS() - the one place
+ * where the code turns a byte offset into a slot pointer - is swapped for a model that
+ *   (1) asserts the offset is a slot boundary inside the ring,
+ *   (2) returns the tracked object of slot g_n or g_e, and
+ *   (3) fails if any OTHER slot is asked for  (=> every other descriptor is untouched).
+ * That the real JOBS(off) is &state->jobs[off / sizeof(IMB_JOB)] for slot boundaries is the
+ * c05_jobs_lemma unit.  This keeps the queries free of byte-offset dereferences into the 56 KB
+ * manager object (what made the first formulation take > 15 min per function).
+ * The stage sequencers and the parameter check are swapped for over-approximating models
+ * (stubs/c05_models.c).
  */
 #include "cprover_shim.h"
 #include <stdlib.h>
@@ -21,19 +30,17 @@
 /* ---- ghost state ---- */
 unsigned g_e, g_n;
 int g_empty;
-/* arbitrary caller-owned descriptor byte of an arbitrary slot, watched for preservation:
- * g_off = g_k * sizeof(IMB_JOB) + g_f with g_f outside the status field */
-unsigned g_k, g_f;
-uint8_t g_byte;   /* its pre-state value */
+IMB_JOB g_slot_n, g_slot_e; /* the objects standing for state->jobs[g_n] and state->jobs[g_e] */
 extern unsigned g_submit_new_calls, g_complete_calls, g_check_calls;
 extern int g_check_ret, g_check_errno;
+extern IMB_JOB *g_submitted;
 
 static inline int
 ring_ok(const IMB_MGR *st)
 {
         return st->next_job == (int) (g_n * SZ) && g_n < NJ && g_e < NJ &&
                (g_empty ? st->earliest_job == -1
-                        : (st->earliest_job == (int) (g_e * SZ) && g_e < NJ && g_e != g_n));
+                        : (st->earliest_job == (int) (g_e * SZ) && g_e != g_n));
 }
 
 static inline unsigned
@@ -48,51 +55,25 @@ nxt(const unsigned i)
         return (i + 1) & (NJ - 1);
 }
 
-/* byte offset of the watched descriptor byte inside state->jobs */
-static inline unsigned
-watched_off(void)
-{
-        return g_k * (unsigned) SZ + g_f;
-}
-
-static inline int
-watched_ok(void)
-{
-        return g_k < NJ && g_f < (unsigned) SZ &&
-               !(g_f >= offsetof(IMB_JOB, status) &&
-                 g_f < offsetof(IMB_JOB, status) + sizeof(((IMB_JOB *) 0)->status));
-}
-
-static inline uint8_t
-watched_byte(const IMB_MGR *st)
-{
-#ifdef EXP_NO_WATCH
-        return g_byte;
-#endif
-        return ((const uint8_t *) st->jobs)[watched_off()];
-}
-
+/* a job may be handed back only when no stage is outstanding.  (That the stages only ever
+ * produce the enumerators COMPLETED / INVALID_ARGS / INTERNAL_ERROR is a stage-level fact,
+ * proved in the dispatcher units; the ring must not hand back BEING_PROCESSED or a
+ * half-done COMPLETED_CIPHER / COMPLETED_AUTH job.) */
 static inline int
 handback_status(const IMB_JOB *j)
 {
-        return j->status == IMB_STATUS_COMPLETED || j->status == IMB_STATUS_INVALID_ARGS ||
-               j->status == IMB_STATUS_INTERNAL_ERROR || j->status == IMB_STATUS_ERROR;
+        return j->status >= IMB_STATUS_COMPLETED;
 }
 
 #define RING_PRE(state)                                                                            \
         __CPROVER_requires(__CPROVER_is_fresh(state, sizeof(*state)))                              \
-        __CPROVER_requires(ring_ok(state))                                                         \
-        __CPROVER_requires(watched_ok() && watched_byte(state) == g_byte)
+        __CPROVER_requires(ring_ok(state) && g_submitted == NULL)
 
-#ifdef EXP_FROM
-#define RING_RANGE(state) __CPROVER_object_from(state->jobs)
-#else
-#define RING_RANGE(state) __CPROVER_object_upto(state->jobs, sizeof(state->jobs))
-#endif
+/* frame of the ring operations: control fields, error code and the STATUS of the two slots */
 #define RING_FRAME(state)                                                                          \
         __CPROVER_assigns(state->earliest_job, state->next_job, state->imb_errno, imb_errno,       \
-                          RING_RANGE(state),                                                       \
-                          g_submit_new_calls, g_complete_calls, g_check_calls)
+                          g_slot_n.status, g_slot_e.status, g_submit_new_calls, g_complete_calls,  \
+                          g_check_calls, g_check_ret, g_check_errno, g_submitted)
 
 /* ---------------- GET_NEXT_JOB ---------------- */
 IMB_JOB *
@@ -100,9 +81,9 @@ contract_get_next_job(IMB_MGR *state)
         /* clang-format off */
 RING_PRE(state)
 __CPROVER_assigns(state->imb_errno, imb_errno)
-__CPROVER_ensures(__CPROVER_return_value == &state->jobs[g_n])            /* the slot after the newest job */
+__CPROVER_ensures(__CPROVER_return_value == &g_slot_n)                   /* the slot after the newest job */
 __CPROVER_ensures(g_empty || ((g_n - g_e) & (NJ - 1)) != 0)             /* ... which is not awaiting return */
-__CPROVER_ensures(state->imb_errno == 0 && imb_errno == 0)
+__CPROVER_ensures(state->imb_errno == 0 && imb_errno == 0)                /* [C14] */
         /* clang-format on */
         ;
 
@@ -113,7 +94,7 @@ contract_queue_size(IMB_MGR *state)
 RING_PRE(state)
 __CPROVER_assigns(state->imb_errno, imb_errno)
 __CPROVER_ensures(__CPROVER_return_value == view_cnt())
-__CPROVER_ensures(state->imb_errno == 0 && imb_errno == 0)
+__CPROVER_ensures(state->imb_errno == 0 && imb_errno == 0)                /* [C14] */
         /* clang-format on */
         ;
 
@@ -124,14 +105,14 @@ contract_get_completed_job(IMB_MGR *state)
 RING_PRE(state)
 __CPROVER_assigns(state->earliest_job, state->imb_errno, imb_errno)
 /* empty, or oldest job not finished: nothing is handed back and nothing changes */
-__CPROVER_ensures((g_empty || __CPROVER_old(state->jobs[g_e].status) < IMB_STATUS_COMPLETED) ==>
+__CPROVER_ensures((g_empty || !handback_status(&g_slot_e)) ==>
                   (__CPROVER_return_value == NULL &&
                    state->earliest_job == __CPROVER_old(state->earliest_job)))
 /* otherwise exactly the oldest job is handed back and leaves the view */
-__CPROVER_ensures((!g_empty && __CPROVER_old(state->jobs[g_e].status) >= IMB_STATUS_COMPLETED) ==>
-                  (__CPROVER_return_value == &state->jobs[g_e] &&
+__CPROVER_ensures((!g_empty && handback_status(&g_slot_e)) ==>
+                  (__CPROVER_return_value == &g_slot_e &&
                    state->earliest_job == (nxt(g_e) == g_n ? -1 : (int) (nxt(g_e) * SZ))))
-__CPROVER_ensures(state->imb_errno == 0 && imb_errno == 0)
+__CPROVER_ensures(state->imb_errno == 0 && imb_errno == 0)                /* [C14] */
         /* clang-format on */
         ;
 
@@ -143,12 +124,10 @@ RING_PRE(state)
 RING_FRAME(state)
 __CPROVER_ensures(g_empty ==> (__CPROVER_return_value == NULL && state->earliest_job == -1 &&
                                g_complete_calls == __CPROVER_old(g_complete_calls)))
-__CPROVER_ensures(!g_empty ==> (__CPROVER_return_value == &state->jobs[g_e] &&
-                                handback_status(&state->jobs[g_e]) &&
+__CPROVER_ensures(!g_empty ==> (__CPROVER_return_value == &g_slot_e && handback_status(&g_slot_e) &&
                                 state->earliest_job == (nxt(g_e) == g_n ? -1 : (int) (nxt(g_e) * SZ))))
 __CPROVER_ensures(state->next_job == (int) (g_n * SZ))
-__CPROVER_ensures(watched_byte(state) == g_byte)                            /* [C14] descriptors unaltered */
-__CPROVER_ensures(state->imb_errno == 0 && imb_errno == 0)
+__CPROVER_ensures(state->imb_errno == 0 && imb_errno == 0)                /* [C14] */
         /* clang-format on */
         ;
 
@@ -166,23 +145,23 @@ __CPROVER_ensures(__CPROVER_return_value == NULL ==>
                    (g_empty || nxt(g_n) != g_e)))
 /* a job handed back is the oldest one, finished, and leaves the view */
 __CPROVER_ensures(__CPROVER_return_value != NULL ==>
-                  (__CPROVER_return_value == &state->jobs[g_empty ? g_n : g_e] &&
+                  (__CPROVER_return_value == (g_empty ? &g_slot_n : &g_slot_e) &&
                    handback_status(__CPROVER_return_value) &&
                    state->earliest_job == (g_empty ? -1 : (int) (nxt(g_e) * SZ))))
 /* full queue: the oldest job is forced to completion instead of being overwritten */
 __CPROVER_ensures((!g_empty && nxt(g_n) == g_e) ==> __CPROVER_return_value != NULL)
-/* rejected job: INVALID_ARGS, never handed to the stages, error code kept */
+/* rejected job: INVALID_ARGS, never handed to the stages, the check's error code kept */
 __CPROVER_ensures((run_check && g_check_ret) ==>
                   (g_submit_new_calls == __CPROVER_old(g_submit_new_calls) &&
-                   (state->jobs[g_n].status == IMB_STATUS_INVALID_ARGS ||
-                    /* ... unless it was also the one handed back and then ... it still is */ 0) &&
-                   state->imb_errno == g_check_errno))
-/* accepted job: submitted to the stages exactly once, error code zero */
+                   g_slot_n.status == IMB_STATUS_INVALID_ARGS && state->imb_errno == g_check_errno)) /* [C12][C14] */
+/* accepted job: handed to the stages exactly once, as itself */
 __CPROVER_ensures(!(run_check && g_check_ret) ==>
                   (g_submit_new_calls == __CPROVER_old(g_submit_new_calls) + 1 &&
-                   state->imb_errno == 0 && imb_errno == 0))
+                   g_submitted == &g_slot_n))                                 /* [C05] */
+/* ... and the call leaves the error code at zero */
+__CPROVER_ensures(!(run_check && g_check_ret) ==>
+                  (state->imb_errno == 0 && imb_errno == 0))                  /* [C14] */
 __CPROVER_ensures(g_check_calls == __CPROVER_old(g_check_calls) + (run_check ? 1 : 0))
-__CPROVER_ensures(watched_byte(state) == g_byte)                            /* [C14] descriptors unaltered */
         /* clang-format on */
         ;
 
@@ -190,6 +169,24 @@ __CPROVER_ensures(watched_byte(state) == g_byte)                            /* [
 #ifndef NATIVE_REPLAY
 IMB_MGR *nondet_mgrp(void);
 int nondet_int(void);
+
+#ifdef LEMMA_REAL_JOBS
+/* lemma on the REAL JOBS(): for every slot k the byte-offset form is the typed slot pointer */
+unsigned nondet_unsigned(void);
+void
+h_jobs_lemma(void)
+{
+        IMB_MGR *st = malloc(sizeof(*st));
+        const unsigned k = nondet_unsigned();
+
+        __CPROVER_assume(st != NULL && k < NJ);
+        __CPROVER_assert(JOBS(st, (int) (k * SZ)) == &st->jobs[k],
+                         "[C05] JOBS(state, k * sizeof(IMB_JOB)) == &state->jobs[k] for every slot k");
+        __CPROVER_assert((const char *) JOBS(st, (int) (k * SZ)) + SZ <= (const char *) st + sizeof(*st),
+                         "[C05][C07] every slot lies inside the manager object");
+        __CPROVER_assert(k != 255, "[VACUITY] last slot reachable");
+}
+#endif
 
 void h_get_next_job(void) { IMB_MGR *st = nondet_mgrp(); (void) GET_NEXT_JOB(st); }
 void h_queue_size(void) { IMB_MGR *st = nondet_mgrp(); (void) QUEUE_SIZE(st); }
